@@ -30,9 +30,9 @@ Section SortFacts.
   Proof.
     intros x l. induction l as [|y r IH]; cbn [insert_stable].
     - apply Permutation_refl.
-    - destruct (ltb (key x) (key y)).
-      + apply Permutation_refl.
+    - destruct (ltb (key y) (key x)).
       + eapply perm_trans; [apply perm_skip, IH | apply perm_swap].
+      + apply Permutation_refl.
   Qed.
 
   Lemma sort_stable_perm' : forall l, Permutation (sort_stable key ltb l) l.
@@ -47,22 +47,23 @@ Section SortFacts.
   Lemma insert_stable_sorted : strict_total ltb -> forall x l,
     StronglySorted key_le l -> StronglySorted key_le (insert_stable key ltb x l).
   Proof.
-    intros (Hirr & Htr & _) x l Hs. induction Hs as [|y r Hsr IH Hall]; cbn [insert_stable].
+    intros (Hirr & Htr & Htot) x l Hs. induction Hs as [|y r Hsr IH Hall]; cbn [insert_stable].
     - constructor; constructor.
-    - destruct (ltb (key x) (key y)) eqn:Exy.
-      + constructor; [constructor; assumption|].
-        assert (Hyx : ltb (key y) (key x) = false).
-        { destruct (ltb (key y) (key x)) eqn:Eyx; [|reflexivity].
-          rewrite <- (Hirr (key x)). symmetry. eapply Htr; eassumption. }
-        constructor; [exact Hyx|].
-        rewrite Forall_forall in Hall |- *. intros z Hz. unfold key_le.
-        destruct (ltb (key z) (key x)) eqn:Ezx; [|reflexivity].
-        specialize (Hall z Hz). unfold key_le in Hall.
-        rewrite <- Hall. symmetry. eapply Htr; eassumption.
+    - destruct (ltb (key y) (key x)) eqn:Eyx.
       + constructor; [exact IH|].
         rewrite Forall_forall in Hall |- *. intros z Hz.
         apply (Permutation_in _ (insert_stable_perm x r)) in Hz.
-        destruct Hz as [<-|Hz]; [exact Exy | apply Hall, Hz].
+        destruct Hz as [<-|Hz]; [|apply Hall, Hz].
+        unfold key_le. destruct (ltb (key x) (key y)) eqn:Exy; [|reflexivity].
+        rewrite <- (Hirr (key x)). symmetry. eapply Htr; eassumption.
+      + constructor; [constructor; assumption|].
+        constructor; [exact Eyx|].
+        rewrite Forall_forall in Hall |- *. intros z Hz. unfold key_le.
+        destruct (ltb (key z) (key x)) eqn:Ezx; [|reflexivity].
+        specialize (Hall z Hz). unfold key_le in Hall.
+        destruct (ltb (key y) (key z)) eqn:Eyz.
+        * rewrite <- Eyx. symmetry. eapply Htr; eassumption.
+        * rewrite <- Eyx. rewrite (Htot _ _ Eyz Hall). symmetry. exact Ezx.
   Qed.
 
   Lemma sort_stable_sorted' : strict_total ltb -> forall l,
@@ -97,7 +98,53 @@ Section SortFacts.
         subst b. f_equal. apply IH; try assumption.
         eapply Permutation_cons_inv; exact Hp.
   Qed.
+  (* an already sorted list (ties allowed) is a fixed point of the sort; no property of ltb needed *)
+  Lemma sort_sorted_id : forall l, StronglySorted key_le l -> sort_stable key ltb l = l.
+  Proof.
+    intros l Hs. induction Hs as [|x r Hsr IH Hall]; [reflexivity|].
+    unfold sort_stable. cbn [fold_right]. fold (sort_stable key ltb r). rewrite IH.
+    destruct r as [|y r']; cbn [insert_stable]; [reflexivity|].
+    inversion Hall as [|? ? Hxy _]; subst. unfold key_le in Hxy. rewrite Hxy. reflexivity.
+  Qed.
+
+  (* stability: the elements with a given key keep their input order *)
+  Variable keqb : K -> K -> bool.
+  Hypothesis keqb_eq : forall a b, keqb a b = true -> a = b.
+  Hypothesis ltb_irrefl : forall a, ltb a a = false.
+
+  Lemma insert_stable_filter_key : forall k x l,
+    filter (fun y => keqb (key y) k) (insert_stable key ltb x l) =
+    (if keqb (key x) k then [x] else []) ++ filter (fun y => keqb (key y) k) l.
+  Proof.
+    intros k x l. induction l as [|y r IH]; cbn [insert_stable].
+    - cbn [filter]. destruct (keqb (key x) k); reflexivity.
+    - destruct (ltb (key y) (key x)) eqn:Eyx.
+      + cbn [filter]. rewrite IH.
+        destruct (keqb (key y) k) eqn:Ey; [|reflexivity].
+        destruct (keqb (key x) k) eqn:Ex; [|reflexivity].
+        apply keqb_eq in Ey, Ex. rewrite Ey, Ex, ltb_irrefl in Eyx. discriminate Eyx.
+      + cbn [filter]. destruct (keqb (key x) k); reflexivity.
+  Qed.
+
+  Lemma sort_stable_filter_key : forall k l,
+    filter (fun y => keqb (key y) k) (sort_stable key ltb l) = filter (fun y => keqb (key y) k) l.
+  Proof.
+    intros k l. unfold sort_stable. induction l as [|x r IH]; [reflexivity|].
+    cbn [fold_right]. rewrite insert_stable_filter_key, IH. cbn [filter].
+    destruct (keqb (key x) k); reflexivity.
+  Qed.
 End SortFacts.
+
+(* the sort is stable: equal keys keep their input order (like Python's sorted) *)
+Theorem sort_stable_is_stable : forall A K (key : A -> K) ltb (keqb : K -> K -> bool),
+  (forall a b, keqb a b = true -> a = b) -> (forall a, ltb a a = false) ->
+  forall k (l : list A),
+  filter (fun y => keqb (key y) k) (sort_stable key ltb l) = filter (fun y => keqb (key y) k) l.
+Proof. intros A K key ltb keqb H1 H2 k l. apply sort_stable_filter_key; assumption. Qed.
+
+Example sort_stable_is_stable_ex :
+  sort_stable (fun x : nat * string => fst x) Nat.ltb [(1, "a"); (1, "b"); (0, "c")] = [(0, "c"); (1, "a"); (1, "b")].
+Proof. reflexivity. Qed.
 
 Theorem sort_stable_perm : forall A K (key : A -> K) ltb (l : list A),
   Permutation (sort_stable key ltb l) l.
@@ -1120,6 +1167,7 @@ Proof. reflexivity. Qed.
 Print Assumptions sort_stable_perm.
 Print Assumptions sort_stable_sorted.
 Print Assumptions sort_stable_canonical.
+Print Assumptions sort_stable_is_stable.
 Print Assumptions string_ltb_strict_total.
 Print Assumptions key_ltb_strict_total.
 Print Assumptions full_key_ltb_strict_total.
